@@ -1,3 +1,5 @@
+//go:build goexperiment.synctest
+
 package server
 
 // C08 driver: histories of presentations / sleeps on the REAL State (registerRandom,
